@@ -35,8 +35,19 @@ def run(ctx, intensify=False):
         exhaustive = True
     else:
         k = 10 * (2 if intensify else 1)
+        # generative-AI models: a stratified sample over the four kinds of size description the rule distinguishes
+        # (a number, a range, a mixture of experts given by numbers / by ranges)
+        from efootprint.builders.services.generative_ai_ecologits import models as _models
+        strata = {}
+        for m in _models.list_models():
+            p_ = m.architecture.parameters
+            k_ = ("moe-" + ("range" if hasattr(p_.active, "min") else "number")) if hasattr(p_, "active") else ("dense-" + ("range" if hasattr(p_, "min") else "number"))
+            strata.setdefault(k_, []).append((m.provider.name, m.name))
+        genai_pick = []
+        for k_ in sorted(strata):
+            genai_pick += rng.sample(strata[k_], min(max(2, k // 4), len(strata[k_])))
         jobs = ([("video", v) for v in video] + [("web", w) for w in rng.sample(web, min(k, len(web)))]
-                + [("genai", g) for g in rng.sample(genai, min(k, len(genai)))] + [("cloud", c) for c in rng.sample(cloud, min(k, len(cloud)))])
+                + [("genai", g) for g in genai_pick] + [("cloud", c) for c in rng.sample(cloud, min(k, len(cloud)))])
         exhaustive = False
     rng.shuffle(jobs)
     n = ctx.nproc
